@@ -2,8 +2,14 @@ package ksw
 
 import (
 	"bytes"
+	"errors"
 	"fmt"
+	"os"
 	"time"
+
+	"github.com/cossacklabs/acra/keystore"
+	v2api "github.com/cossacklabs/acra/keystore/v2/keystore/api"
+	beapi "github.com/cossacklabs/acra/keystore/v2/keystore/filesystem/backend/api"
 
 	"verif/sim/kernel"
 )
@@ -33,6 +39,18 @@ func (s *Session) reconcile(op kernel.Op, kind, client string) {
 		allErr, pv = Guard(func() error { var e error; all, e = s.H.ReadAll(kind, cid); return e })
 		if pv != nil {
 			s.violate("no-panic", site+"/read-all", fmt.Sprint(pv))
+			return
+		}
+	}
+	// an "all keys" read that fails because there is nothing to read offers
+	// nothing; one that fails for another reason means the keystore does not
+	// read after the fault
+	if allErr != nil {
+		if isNoKeysErr(allErr) {
+			all, allErr = nil, nil
+		} else if len(ring.AliveNewestFirst()) > 0 {
+			s.violate("readable-before-still-readable", site, fmt.Sprintf("%s: keys no longer read after the fault: %v", id, allErr))
+			s.broken[id] = true
 			return
 		}
 	}
@@ -106,6 +124,11 @@ func (s *Session) reconcile(op kernel.Op, kind, client string) {
 			}
 		}
 	}
+}
+
+func isNoKeysErr(err error) bool {
+	return errors.Is(err, keystore.ErrKeysNotFound) || errors.Is(err, beapi.ErrNotExist) || os.IsNotExist(err) ||
+		errors.Is(err, v2api.ErrNoCurrentKey) || errors.Is(err, v2api.ErrKeyDestroyed)
 }
 
 func (s *Session) knownSecret(ring *MRing, secret []byte) *MKey {
